@@ -199,7 +199,8 @@ def pytorch_stft_frame_computer(
     if pad_left < 0:
         # kaldi_shift with a shift longer than the frame: frames start past sample 0
         sig = sig[-pad_left:]
-    sig = sig.as_strided((num_frames, frame_length), (frame_shift, 1))
+    # (the strides below are those of a contiguous signal)
+    sig = sig.contiguous().as_strided((num_frames, frame_length), (frame_shift, 1))
     y: List[torch.Tensor] = []
     if include_energy:
         energy = torch.linalg.norm(sig, 2, 1) / math.sqrt(frame_length)
